@@ -145,6 +145,10 @@ def c10_oracle(payload):
             ff = m.far_field
             et = np.array(ff.e_theta); ep = np.array(ff.e_phi); gain = np.array(ff.gain)
             emax = max(np.abs(et).max(), np.abs(ep).max())
+            # the input power the gain refers to, from the voltages and currents themselves (not the program's own sum)
+            P_in = sum(0.5 * (complex(s_.voltage) * np.conj(m.current[s_.idx])).real for s_ in m.sources)
+            if abs(m.power - P_in) > 1e-9 * sum(0.5 * abs(s_.voltage) * abs(m.current[s_.idx]) for s_ in m.sources):
+                bad.append('input power used for the gain %r is not sum Re(V I*)/2 = %r' % (m.power, P_in))
             maxseg = max(s.seg_len for p in m.pulses for s in p.segs)
             lam = 299.8 / m.f
             for a in range(azi[2]):
@@ -160,7 +164,7 @@ def c10_oracle(payload):
                             bad.append('far field deviates more than 2 %% from the exact half-segment integral at (%.4g, %.4g)' % (math.degrees(th), math.degrees(ph))); break
                     # dBi table: each polarisation and total, from the un-normalised field
                     for j, v in enumerate((abs(et[a][z]) ** 2, abs(ep[a][z]) ** 2, abs(et[a][z]) ** 2 + abs(ep[a][z]) ** 2)):
-                        lin = v / (59.96 * m.power)
+                        lin = v / (59.96 * P_in) if P_in > 0 else 0.0
                         if lin > 1e-12 and abs(gain[z][a][j] - 10 * math.log10(lin)) > 2e-3:
                             bad.append('gain[%d] at (%.4g, %.4g) is %.6f dBi, |E|^2/(59.96 P) gives %.6f' % (j, math.degrees(th), math.degrees(ph), gain[z][a][j], 10 * math.log10(lin))); break
                 if bad: break
